@@ -327,6 +327,7 @@ func replay(cases, out string) {
 	sc := bufio.NewScanner(f)
 	sc.Buffer(make([]byte, 1<<20), 1<<26)
 	var ue *tglib.RanUeContext
+	var ranID, amfID int64
 	ncase := 0
 	toB := func(x interface{}) []byte {
 		a, _ := x.([]interface{})
@@ -344,7 +345,12 @@ func replay(cases, out string) {
 		}
 		switch c["ev"] {
 		case "Start":
-			ue = tglib.NewRanUeContext("imsi-2089300007487", 1, uint8(c["enc"].(float64)), uint8(c["int"].(float64)))
+			// the identifiers of the UE-associated connection over their whole ranges (RAN-UE-NGAP-ID 0..2^32-1, AMF-UE-NGAP-ID 0..2^40-1)
+			hn := int(c["hist"].(float64))
+			ranID = []int64{1, 1 << 31, 4294967294, 0, 3000000000, 4294967295, 1<<31 - 1, 65536}[hn%8]
+			amfID = []int64{1, 1 << 32, 1<<40 - 1, 0, 1 << 31, 4294967295, 1<<32 + 7, 255}[(hn+3)%8]
+			ue = tglib.NewRanUeContext("imsi-2089300007487", ranID, uint8(c["enc"].(float64)), uint8(c["int"].(float64)))
+			ue.AmfUeNgapId = amfID
 			copy(ue.KnasEnc[:], toB(c["kenc"]))
 			copy(ue.KnasInt[:], toB(c["kint"]))
 			dl := uint32(c["dl"].(float64))
@@ -369,8 +375,8 @@ func replay(cases, out string) {
 				}
 				// the optional IEs of TS 38.413 9.2.5.2 in front of and behind the NAS-PDU, in all eight combinations in turn
 				combo := (ncase / 3) % 8
-				add(ngapType.ProtocolIEIDAMFUENGAPID, ngapType.DownlinkNASTransportIEsPresentAMFUENGAPID, func(v *ngapType.DownlinkNASTransportIEsValue) { v.AMFUENGAPID = &ngapType.AMFUENGAPID{Value: 1} })
-				add(ngapType.ProtocolIEIDRANUENGAPID, ngapType.DownlinkNASTransportIEsPresentRANUENGAPID, func(v *ngapType.DownlinkNASTransportIEsValue) { v.RANUENGAPID = &ngapType.RANUENGAPID{Value: 1} })
+				add(ngapType.ProtocolIEIDAMFUENGAPID, ngapType.DownlinkNASTransportIEsPresentAMFUENGAPID, func(v *ngapType.DownlinkNASTransportIEsValue) { v.AMFUENGAPID = &ngapType.AMFUENGAPID{Value: amfID} })
+				add(ngapType.ProtocolIEIDRANUENGAPID, ngapType.DownlinkNASTransportIEsPresentRANUENGAPID, func(v *ngapType.DownlinkNASTransportIEsValue) { v.RANUENGAPID = &ngapType.RANUENGAPID{Value: ranID} })
 				if combo&1 != 0 {
 					add(ngapType.ProtocolIEIDOldAMF, ngapType.DownlinkNASTransportIEsPresentOldAMF, func(v *ngapType.DownlinkNASTransportIEsValue) { v.OldAMF = &ngapType.AMFName{Value: "old"} })
 				}
@@ -400,6 +406,17 @@ func replay(cases, out string) {
 			}
 			c["obs"] = obs
 			w.Emit(c)
+			if ncase%5 == 2 {
+				// ... and now and then it sends a message in clear although a context exists (as an IDENTITY RESPONSE with the SUCI may,
+				// TS 24.501 4.4.4.3): that is a statement about this one message, the context and its counters go on
+				plain := []byte{0x7e, 0x00, 0x64, byte(ncase)}
+				var o []byte
+				var uerr error
+				up := ev.Catch(func() { o, uerr = tglib.EncodeNasPduWithSecurity(ue, append([]byte{}, plain...), 0, false, false) })
+				w.Emit(ev.M{"ev": "Enc", "id": fmt.Sprintf("%v-pl", c["id"]), "hist": c["hist"], "step": ncase, "hdr": 0, "avail": false, "new": false,
+					"plain": ev.Ints(plain), "out": ev.Ints(o), "err": uerr != nil || up != "",
+					"ulAfter": int(ue.ULCount.Get()), "dlAfter": int(ue.DLCount.Get())})
+			}
 			if ncase%7 == 0 {
 				// the UE answers now and then: an uplink message under the same context must still carry the next uplink NAS COUNT
 				// (whatever the downlink counter has done in between) and leave the downlink counter alone
